@@ -219,6 +219,12 @@ func ruleIndexGuards(c *Ctx, rule string) {
 				ob.OKnt("dominated by an earlier access to the same (or a later) element of " + valName(s.coll) + ": if that access is in bounds so is this one")
 				continue
 			}
+			// a cursor object: position and text live in fields behind a pointer, tests are made by its predicate methods and every call
+			// may move the position - the dominance argument over SSA values does not apply
+			if fieldThroughPointer(n.base) || fieldThroughPointer(s.coll) {
+				ob.Und(fmt.Sprintf("the index %s and/or the text %s are fields of an object behind a pointer (a cursor); bounds established through its predicate methods are not followed", exprStr(n.base), exprStr(s.coll)))
+				continue
+			}
 			ob.Bad(fmt.Sprintf("no dominating test of %s against len(%s): input that ends here indexes past the end (index out of range panic inside Compile)", idxName(n), valName(s.coll)))
 		}
 	}
@@ -368,4 +374,18 @@ func nonEmptyBy(fn *ssa.Function, coll ssa.Value, k int64, at ssa.Instruction) b
 		}
 	}
 	return false
+}
+
+// fieldThroughPointer: v is loaded from a field of a struct reached through a pointer that is not a local allocation.
+func fieldThroughPointer(v ssa.Value) bool {
+	u, ok := v.(*ssa.UnOp)
+	if !ok || u.Op != token.MUL {
+		return false
+	}
+	fa, ok := u.X.(*ssa.FieldAddr)
+	if !ok {
+		return false
+	}
+	_, isAlloc := fa.X.(*ssa.Alloc)
+	return !isAlloc
 }
